@@ -23,8 +23,16 @@ func VC02_setmode() {
 		vos.AddFile("/t/mode", []byte("local 2020-02-02"))
 	}
 	day := vrt.PoolDay(vrt.Param("run", 3))
-	tod := vrt.SecondOfDay()
-	at := time.Unix(day*86400+tod, 0)
+	var at time.Time
+	if vrt.Bool() {
+		at = time.Unix(day*86400+vrt.SecondOfDay(), 0)
+	} else {
+		// an instant expressed in a zone whose calendar date differs from the UTC date
+		// (the recorded date is the UTC date: every comparison downstream is in UTC)
+		tod := []int64{3600, 43200, 82800}[vrt.Choose(3)]
+		zone := []*time.Location{time.FixedZone("w", -5*3600), time.FixedZone("e", 9*3600)}[vrt.Choose(2)]
+		at = time.Unix(day*86400+tod, 0).In(zone)
+	}
 	vos.Events = nil
 	if vrt.Bool() {
 		pads := []string{"", " ", "\n", "\t "}
